@@ -51,13 +51,14 @@ CLAIMS = {
             "nested-inductive tree mirroring Python's ast field by field): visit_replaced (at most one replacement), "
             "visit_untouched (a sub-tree the search does not touch is returned unchanged, for any state), "
             "visitItems_frame/visitItems_length (in every statement list walked, untouched statements come back at the "
-            "same index; nothing dropped, duplicated or reordered), visit_search; find_sound (a total, fuel-indexed "
+            "same index; nothing dropped, duplicated or reordered), visit_search, visit_constant_kept (a string constant is never what gets "
+            "replaced, whatever location it carries: fix 8971591); find_sound (a total, fuel-indexed "
             "transliteration of find_in_ast: whatever it returns carries the searched location or is named by one of the "
             "search's segments - mutual induction over its two loops). annotate_ancestry is modelled statement by "
             "statement (executable, no theorem). Both are tied to the code on every generated module, and a lookup after "
             "an in-place rewrite is compared with a lookup on a fresh parse; the property predicate is an independent resolver over ast run against the real code for "
-            "every case. The property is false today on several classes (eight recorded findings: D11, D12, D13, D25 and "
-            "four more); on the remaining domain the predicate held on every case explored."
+            "every case (where several statements bind the addressed name, a replacement must change exactly one of them). "
+            "The property is false today on several classes (nine recorded findings: D11, D12, D13 and six more; D25 is repaired); on the remaining domain the predicate held on every case explored."
         ),
         design="§7 C15",
         note=TB + "find_in_ast/annotate_ancestry: model is `partial` (executable Impl), so no theorem speaks about it yet — correspondence + predicate only.",
@@ -132,7 +133,7 @@ CLAIMS = {
             "emit.class_ followed by parse.class_. Behind it, the attribute half is modelled statement by statement "
             "(ClassAttr: param2ast, the AnnAssign branch of parse.class_, _infer_default) and ClassAttr.attrRT_eq_norm "
             "proves that this statement-level round trip IS Kinds.normClassParam on the typed, literal-default domain (six "
-            "staged theorems by shape of type and default, each with a concrete instance). The ties are differential runs: "
+            "staged theorems by shape of type and default, each with a concrete instance); Refine.class_refines lifts it to ANY number of attributes (the statement-level round trip mapped over the parameter list IS (norm .cls ir).params). The ties are differential runs: "
             "whole description and every entry alone (Kinds.dom_single / norm_single justify the decomposition) against the "
             "real emit -> ast.unparse -> ast.parse -> parse, plus param2ast and the attribute parser against the real "
             "functions on every entry. The property predicate (names, order, types, prose, explicit "
@@ -151,7 +152,7 @@ CLAIMS = {
             "emit.function followed by parse.function. Behind it: FuncAttr.funcRT_eq_norm (one parameter through set_value, "
             "func_arg2param and _infer_default IS Kinds.normFuncParam on the typed domain) and Sig.pairArgs_get / "
             "emit_then_pair (the padding + pairing step of parse.function gives every argument its own default; old-code "
-            "witness pairArgsOld_shifts). The ties are differential runs: whole description, every entry alone, and the "
+            "witness pairArgsOld_shifts); Refine.func_refines lifts funcRT_eq_norm to ANY number of parameters. The ties are differential runs: whole description, every entry alone, and the "
             "func_attr layer, through the emitted text and (30% of the cases) tree to tree, against the real code. The property predicate (names, order, types, prose, explicit "
             "defaults with their Python type, permitted normalisation only) runs on the real code for every case, inside and "
             "outside that domain; the classes where it fails today are recorded findings."
@@ -160,19 +161,28 @@ CLAIMS = {
         note=TB + "Interface-level model (emit∘parse as one function of the IR); ast.unparse/ast.parse run for real. word_wrap is exercised only where everything fits the line (else C18).",
     ),
     "C04": dict(
-        technique="Lean 4 theorems on interface-level normal forms (what emit->parse does to a description) + differential run conv = norm on every in-domain description; round-trip predicate on the real code",
+        technique="Lean 4 theorems on a statement-level model of param2argparse_param / _resolve_arg / infer_type_and_default / parse_out_param and of the require_default thread (argRT_eq_norm, argparseParams_refines: the statements refine the interface-level normal form) + differential runs per emitted call, per parsed call and per option list; round-trip predicate on the real code",
         text=(
-            "Kernel-checked: Kinds.pres_argparse (one conversion keeps every parameter's prose, type and explicit default and only "
-            "fills absent defaults), norm_pres (names and order kept; return entry kept or lost, never invented), "
-            "for ALL descriptions (no size bound). These theorems speak about Kinds.norm, an interface-level model of "
-            "emit.argparse_function followed by parse.argparse_ast (the AST construction itself is not yet modelled statement by statement); "
-            "the tie is the differential run: for every generated description inside Kinds.dom the real emit -> ast.unparse -> "
-            "ast.parse -> parse result must equal Kinds.norm. The property predicate (names, order, types, prose, explicit "
-            "defaults with their Python type, permitted normalisation only) runs on the real code for every case, inside and "
-            "outside that domain; the classes where it fails today are recorded findings."
+            "Kernel-checked, about a statement-by-statement model of the argparse kind (ArgAttr.lean): argRT_eq_norm / "
+            "argRT_eq_norm_first (for every entry of the shapes scalar, Optional[scalar], List[scalar], Literal['a', ...] "
+            "with an absent, None or literal default, param2argparse_param followed by parse_out_param IS "
+            "Kinds.normArgparseParam - for the options read before any default was seen: its first-option form), seven "
+            "staged theorems with concrete instances, emit_lit / emit_none / emit_noneStr / parse_default / parse_nodefault "
+            "(generic in what _resolve_arg answered), litMembers_join (the Literal member scanner inverts the printer, any "
+            "number of members), argparseParams_refines / Refine.argparse_refines (ANY number of options, with the "
+            "require_default flag threaded as parse.argparse_ast does: the statement-level function refines Kinds.norm), the "
+            "D28 witness (bool without default comes back Optional[bool]) by decide +kernel; and the interface-level "
+            "Kinds.pres_argparse / norm_pres / norm_argparse_idem / dom_single for ALL descriptions. Ties (differential runs "
+            "against the real functions, in process): the keywords of every emitted add_argument call, what the real "
+            "parser reads from every such call (after unparse/re-parse, both values of require_default and emit_default_doc), "
+            "the whole option list of return-less descriptions, Kinds.norm on whole descriptions and on every entry alone. "
+            "The walk over the parsed type expression is modelled by shape: other type shapes answer `unmodelled` (about 7% "
+            "of the generated entries) and are left to the predicate. The property predicate (names, order, types, prose, "
+            "explicit defaults with their Python type, permitted normalisation only) runs on the real code for every case; "
+            "the classes where it fails today are recorded findings."
         ),
-        design="§7 C04",
-        note=TB + "Interface-level model (emit∘parse as one function of the IR); ast.unparse/ast.parse run for real. word_wrap is exercised only where everything fits the line (else C18).",
+        design="§A.3, §A.9, §7 C04",
+        note=TB + "ast.unparse/ast.parse run for real; the type-expression walk of _resolve_arg is modelled by shape, not as a generic tree walk. word_wrap is exercised only where everything fits the line (else C18).",
     ),
     "C05": dict(
         technique="Lean 4 theorem by induction over chains of any length on the interface-level normal forms + differential run of real chains through text against the composed model",
@@ -295,7 +305,8 @@ CLAIMS = {
             "Shared.shared_eq_fresh (no dependence on earlier calls when emitters do not mutate their input). The model is "
             "replayed against every recorded real ir_merge call under two random orders. The part a theorem cannot reach - "
             "the interpreter's hash randomisation and per-process state - is covered by running the same batch of "
-            "conversions in sub-processes under PYTHONHASHSEED 0..7 + random (thorough: 0..63), in permuted orders with "
+            "conversions (a tenth of them in-memory definitions, imported once per process and parsed as objects) in "
+            "sub-processes under PYTHONHASHSEED 0..7 + random (thorough: 0..63), in permuted orders with "
             "repetitions, and requiring byte-identical output per conversion."
         ),
         design="§7 C12",
@@ -329,9 +340,11 @@ CLAIMS = {
             "the production order. The predicate imports generated input modules from a scratch directory, calls the real "
             "gen() for the three output types, templates, prepend and imports-from-file options and checks: parses, one "
             "definition per entry by name and order and type, __all__, prepend/imports once and first, parameter names of "
-            "each definition against its source object. Partial: the in-memory inspection (inspect.getsource, module "
-            "import) and the per-entry parse/emit are real code, not modelled; refusal of an existing output is checked "
-            "under C20."
+            "each definition against its source object, every literal default of the source signature against the default of "
+            "the same parameter in the generated definition, and - through the CLI - that an output file which already exists "
+            "(named absolutely, relatively, through an unexpanded ~, through a .. detour) is refused with the file and its "
+            "directory untouched. Partial: the in-memory inspection (inspect.getsource, module import), the per-entry "
+            "parse/emit and the refusal are real code, not modelled."
         ),
         design="§7 C19",
         note=TB + "Module import, inspect and eval of prepended imports run for real; annotated callables are a recorded finding.",
